@@ -50,7 +50,7 @@ type SvcCfg struct {
 }
 
 type Op struct {
-	T    string `json:"t"` // req plan ret stop
+	T    string `json:"t"` // req plan send ret stop
 	S    int    `json:"s"`
 	P    int    `json:"p,omitempty"`    // promise number (req)
 	Cols []Col  `json:"cols,omitempty"` // req: row ids per column
@@ -59,7 +59,7 @@ type Op struct {
 }
 
 type Ev struct {
-	T    string `json:"t"` // req dial send done res
+	T    string `json:"t"` // req dial swap send done res
 	S    int    `json:"s"`
 	P    int    `json:"p,omitempty"`
 	Cols []Col  `json:"cols,omitempty"` // send: decoded values per column
@@ -77,6 +77,7 @@ type Case struct {
 	Obs      [][]Ev   `json:"obs"`
 	Err      string   `json:"err,omitempty"` // harness-level trouble (no quiescence, script not executable)
 	Rows     int      `json:"rows"`          // total rows submitted (coverage)
+	Drained  bool     `json:"drained"`       // the script ends with a complete drain: every accepted promise must be completed
 }
 
 var kinds = []string{"samples", "series", "metrics", "spans", "tags", "profile"}
@@ -308,6 +309,8 @@ type bench struct {
 	dials    [][]bool
 	release  []chan bool // per service: outcome for the blocked Do
 	inflight []bool
+	goahead  []chan bool // per service: lets the OnBeforeInsert callback return
+	before   []bool      // the worker sits in OnBeforeInsert (after swapBuffers, before client.Do)
 	trouble  string
 }
 
@@ -399,6 +402,19 @@ func (b *bench) factory(s int) ch_wrapper.IChClientFactory {
 			return nil, errDial
 		}
 		return &fakeClient{b: b, s: s}, nil
+	}
+}
+
+// beforeInsert is the OnBeforeInsert option of the real services: it runs in fetchLoopIteration right after
+// swapBuffers took a portion and before client.Do is called. The harness parks the worker here so that the script
+// can interleave Requests (and anything else) with that window.
+func (b *bench) beforeInsert(s int) func() {
+	return func() {
+		b.mu.Lock()
+		b.events = append(b.events, Ev{T: "swap", S: s})
+		b.before[s] = true
+		b.mu.Unlock()
+		<-b.goahead[s]
 	}
 }
 
@@ -549,9 +565,11 @@ type runner struct {
 
 func start(c *Case) *runner {
 	n := len(c.Svcs)
-	b := &bench{dials: make([][]bool, n), release: make([]chan bool, n), inflight: make([]bool, n)}
+	b := &bench{dials: make([][]bool, n), release: make([]chan bool, n), inflight: make([]bool, n),
+		goahead: make([]chan bool, n), before: make([]bool, n)}
 	for i := range b.release {
 		b.release[i] = make(chan bool)
+		b.goahead[i] = make(chan bool)
 		if i < len(c.Dials) {
 			b.dials[i] = append([]bool(nil), c.Dials[i]...)
 		}
@@ -562,7 +580,7 @@ func start(c *Case) *runner {
 		node.Node = "n"
 		node.WriteTimeout = 30
 		sv := newService(sc.Kind, model.InsertServiceOpts{Session: b.factory(i), Node: node, Interval: time.Hour,
-			ParallelNum: 1, MaxQueueSize: sc.MaxQ})
+			ParallelNum: 1, MaxQueueSize: sc.MaxQ, OnBeforeInsert: b.beforeInsert(i)})
 		mm := sv.(*service.InsertServiceV2Multimodal)
 		mm.Init()
 		go mm.Run()
@@ -611,6 +629,16 @@ func (r *runner) do(o *Op) []Ev {
 		go watch(b, o.P, pr)
 	case "plan":
 		r.svcs[o.S].SyncService.PlanFlush()
+	case "send":
+		b.mu.Lock()
+		bf := b.before[o.S]
+		b.before[o.S] = false
+		b.mu.Unlock()
+		if !bf {
+			b.fail("send without a worker in OnBeforeInsert")
+			return nil
+		}
+		b.goahead[o.S] <- true
 	case "ret":
 		b.mu.Lock()
 		fl := b.inflight[o.S]
@@ -646,17 +674,24 @@ func (r *runner) do(o *Op) []Ev {
 }
 
 func (r *runner) finish() {
-	// let every blocked Do fail, stop everything, wait for the fetch loops to exit
-	for s := range r.svcs {
-		r.b.mu.Lock()
-		fl := r.b.inflight[s]
-		r.b.inflight[s] = false
-		r.b.mu.Unlock()
-		if fl {
-			r.b.release[s] <- false
+	// let every parked worker go on and every blocked Do fail, stop everything, wait for the fetch loops to exit
+	for round := 0; round < 2; round++ {
+		for s := range r.svcs {
+			r.b.mu.Lock()
+			bf := r.b.before[s]
+			r.b.before[s] = false
+			fl := r.b.inflight[s]
+			r.b.inflight[s] = false
+			r.b.mu.Unlock()
+			if bf {
+				r.b.goahead[s] <- true
+			}
+			if fl {
+				r.b.release[s] <- false
+			}
 		}
+		waitQuiet()
 	}
-	waitQuiet()
 	for _, sv := range r.svcs {
 		sv.Stop()
 	}
@@ -670,6 +705,10 @@ func (r *runner) finish() {
 		for s := range r.svcs {
 			select {
 			case r.b.release[s] <- false:
+			default:
+			}
+			select {
+			case r.b.goahead[s] <- true:
 			default:
 			}
 		}
@@ -827,26 +866,33 @@ func (g *gen) runGenerated(c *Case) {
 	malformed := strings.HasPrefix(c.Class, "malformed")
 	nops := 4 + r.Intn(11)
 	stopped := make([]bool, len(c.Svcs))
+	zeroSize := false
 	for i := 0; i < nops && rn.b.trouble == ""; i++ {
 		s := r.Intn(len(c.Svcs))
 		var o Op
 		x := r.Intn(100)
 		rn.b.mu.Lock()
 		fl := rn.b.inflight[s]
+		bf := rn.b.before[s]
 		rn.b.mu.Unlock()
 		switch {
+		case bf && x < 40:
+			o = Op{T: "send", S: s}
 		case fl && x < 45:
 			o = Op{T: "ret", S: s, Ok: r.Intn(3) != 0}
 		case x < 70:
 			// very large requests only in well-formed scripts (the monitors' fast paths need whole rows)
 			cols, sz, rows, _ := g.request(c.Svcs[s].Kind, malformed && r.Intn(3) == 0, !malformed)
+			if sz <= 0 && rows > 0 {
+				zeroSize = true
+			}
 			o = Op{T: "req", S: s, P: rn.nextP, Cols: cols, Sz: sz}
 			rn.nextP++
 			c.Rows += rows
 		case x < 97:
 			o = Op{T: "plan", S: s}
 		default:
-			if stopped[s] || fl {
+			if stopped[s] || fl || bf {
 				// Stop while a Do is blocked is observed by Run only after that Do returned, in a random
 				// order with a pending flush: not a deterministic script
 				o = Op{T: "plan", S: s}
@@ -858,22 +904,43 @@ func (g *gen) runGenerated(c *Case) {
 		c.Ops = append(c.Ops, o)
 		c.Obs = append(c.Obs, rn.do(&c.Ops[len(c.Ops)-1]))
 	}
-	// drain: return every blocked Do, flush what is left
-	for round := 0; round < 3 && rn.b.trouble == ""; round++ {
+	// drain: let every parked worker send, every blocked Do return with success, flush what is left, until a
+	// whole round of PlanFlush produces nothing
+	anyStop := false
+	for _, st := range stopped {
+		anyStop = anyStop || st
+	}
+	step := func(o Op) []Ev {
+		c.Ops = append(c.Ops, o)
+		evs := rn.do(&c.Ops[len(c.Ops)-1])
+		c.Obs = append(c.Obs, evs)
+		return evs
+	}
+	for round := 0; round < 6 && rn.b.trouble == ""; round++ {
+		busy := false
 		for s := range c.Svcs {
-			rn.b.mu.Lock()
-			fl := rn.b.inflight[s]
-			rn.b.mu.Unlock()
-			var o Op
-			if fl {
-				o = Op{T: "ret", S: s, Ok: true}
-			} else if round < 2 && !stopped[s] {
-				o = Op{T: "plan", S: s}
-			} else {
-				continue
+			for k := 0; k < 4 && rn.b.trouble == ""; k++ {
+				rn.b.mu.Lock()
+				fl, bf := rn.b.inflight[s], rn.b.before[s]
+				rn.b.mu.Unlock()
+				if bf {
+					step(Op{T: "send", S: s})
+				} else if fl {
+					step(Op{T: "ret", S: s, Ok: true})
+				} else {
+					break
+				}
+				busy = true
 			}
-			c.Ops = append(c.Ops, o)
-			c.Obs = append(c.Obs, rn.do(&c.Ops[len(c.Ops)-1]))
+			if !stopped[s] && rn.b.trouble == "" {
+				if len(step(Op{T: "plan", S: s})) > 0 {
+					busy = true
+				}
+			}
+		}
+		if !busy {
+			c.Drained = !anyStop && !zeroSize
+			break
 		}
 	}
 	rn.finish()
